@@ -124,3 +124,7 @@ def run(ctx, chk):
         chk.check(RD, (names <= covered or wild) and not nl, "%s::%s" % (mod.split("::")[-1], ty),
                   "variants without an arm: %s; strings with newline: %s" % (sorted(names - covered), nl[:2]), raw.where(fname, ty), sample=sorted(covered)[:5])
     chk.analysed.update({"reachable_from_main": len(reach)})
+
+
+def thorough(ctx, chk):
+    c04.thorough(ctx, chk)
